@@ -5,6 +5,7 @@ package main
 import (
 	"context"
 	"fmt"
+	"runtime"
 	"strconv"
 	"strings"
 	"time"
@@ -156,6 +157,67 @@ func runReattach(lim string, gens []srcGen, tgt []readEv, free bool) string {
 	}
 }
 
+// closerace <k>: the bridge is closed from outside at (nearly) the instant its target attaches: Start
+// leaves its wait on `ready` and sets up its forwarders while Close tears the same fields down.
+// Observation: ret <b> rem <b>   (the bridge must end and be forgotten; under the race-detector
+// build an unordered access to the bridge's fields is reported as `data-race`).
+func runCloseRace(k int) string {
+	res := make(chan string, 1)
+	go func() {
+		defer func() {
+			if r := recover(); r != nil {
+				res <- "panic " + strings.ReplaceAll(fmt.Sprint(r), " ", "_")
+			}
+		}()
+		ctx, cancel := context.WithCancel(context.Background())
+		defer cancel()
+		st := storage.NewMemoryStorage(ctx)
+		sm := session.NewSessionManager(idgen.NewIDManager(st, ctx), ctx)
+		defer sm.Close()
+		sc := newScriptConn("src", nil, nil)
+		sc.holdAtEnd = true
+		tc := newScriptConn("tgt", nil, nil)
+		tc.holdAtEnd = true
+		id := fmt.Sprintf("verif-tunnel-%d", bridgeSeq.Add(1))
+		br := sm.VerifStartBridge(id, "", sc, 0)
+		start := make(chan struct{})
+		done := make(chan struct{}, 2)
+		go func() {
+			<-start
+			for i := 0; i < k%7; i++ {
+				runtime.Gosched()
+			}
+			br.SetTargetConnection(&tconn{c: tc})
+			done <- struct{}{}
+		}()
+		go func() {
+			<-start
+			for i := 0; i < k/7%7; i++ {
+				runtime.Gosched()
+			}
+			br.Close()
+			done <- struct{}{}
+		}()
+		close(start)
+		<-done
+		<-done
+		returned := false
+		for d := time.Now().Add(20 * time.Second); time.Now().Before(d); time.Sleep(200 * time.Microsecond) {
+			if !sm.VerifHasBridge(id) {
+				returned = true
+				break
+			}
+		}
+		res <- fmt.Sprintf("ret %s rem %s", b2s(returned), b2s(!sm.VerifHasBridge(id)))
+	}()
+	select {
+	case s := <-res:
+		return s
+	case <-time.After(60 * time.Second):
+		return "timeout"
+	}
+}
+
 func fmtReattach(kind, lim string, gens []srcGen, tgt []readEv) string {
 	var sb strings.Builder
 	fmt.Fprintf(&sb, "%s lim %s gens %d", kind, lim, len(gens))
@@ -250,6 +312,14 @@ func genReattach(out *vc.Out, r *vc.Rand, thorough bool) {
 			out.Count("reattach:faults")
 		}
 		execCase(out, fmtReattach("reattach", lim, gens, tgt))
+	}
+	ncr := 49
+	if thorough {
+		ncr = 490
+	}
+	for k := 0; k < ncr; k++ {
+		out.Count("closerace")
+		execCase(out, fmt.Sprintf("closerace %d", k))
 	}
 	// free-running: the target streams many small writes while the source connections are replaced
 	nfree := 6
